@@ -417,7 +417,7 @@ func genMatcher(r *rand.Rand, depth int) []string {
 		}
 		return append([]string{"hosts"}, list(ds...)...)
 	case x < 5:
-		return append([]string{"pv", pick(r, []string{"", "ver"})}, list(pick(r, [][]string{{"v1"}, {"v2", "v1"}, {"v11"}, {"/v1/"}})...)...)
+		return append([]string{"pv", pick(r, []string{"", "ver"})}, list(pick(r, [][]string{{"v1"}, {"v2", "v1"}, {"v11", "v1/v1"}, {"/v1/"}})...)...)
 	case x < 6:
 		return append([]string{"hv", pick(r, []string{"", "hver"}), ""}, list(pick(r, [][]string{{"1"}, {"2", "1"}})...)...)
 	default:
